@@ -328,7 +328,7 @@ void StatementBuilder::decl_parameter(const char* name, bool ref)
     typeFragments.pop();
 
     if (ref) {
-        type = type.create_prefix(REF);
+        type = type.create_prefix(REF, position);
     }
 
     params.add_symbol(name, type, position);
